@@ -112,17 +112,15 @@ func (g *Gen) complexSelector() string {
 				b.WriteString(" ")
 			}
 		}
-		c := g.compound()
-		if i > 0 && g.known && g.chance(1, 12) {
-			// N06: a comment as the only separator between two compounds is not whitespace, but glue
-			// words on both sides do fuse when the comment is dropped
-		}
-		b.WriteString(c)
+		b.WriteString(g.compound())
 	}
 	return b.String()
 }
 
 func (g *Gen) selectorList() string {
+	if g.known && g.chance(1, 40) { // N06: a comment is the only separator between two identifiers
+		return g.pick("div/**/p", "a/* c */b .x", ":not(a/**/b)")
+	}
 	n := 1
 	if g.chance(1, 3) {
 		n = 2 + g.r.Intn(2)
